@@ -488,8 +488,11 @@ class ExcelCompiler:
             cell_or_range.value = value
 
     def _reset(self, cell, force=False):
-        if cell.needs_calc and not force:
-            # force is for the cell being set, which might be set to None
+        if cell.needs_calc and not force and not (
+                isinstance(cell, _CellRange) and cell.formula is None):
+            # force is for the cell being set, which might be set to None.
+            # A plain range can be without a value while a formula which only
+            # refers to it (A1:B2 in =SUM(A1:B2 B1:C2)) holds one
             return
         self.log.info(f"Resetting {cell.address}")
         cell.value = None
